@@ -51,12 +51,12 @@ import (
 // ---------------------------------------------------------------- server side
 
 type connRec struct {
-	ID          int
-	Tag         string
-	returned    chan struct{}
-	normal      bool // Handle returned by a normal return (false: by panic)
-	discCalls   int32
-	returnedAt  time.Time
+	ID         int
+	Tag        string
+	returned   chan struct{}
+	normal     bool // Handle returned by a normal return (false: by panic)
+	discCalls  int32
+	returnedAt time.Time
 }
 
 type countingHandler struct {
@@ -247,22 +247,28 @@ type received struct {
 }
 
 type client struct {
-	tcp    *net.TCPConn
-	ws     *websocket.Conn
-	tag    string
-	mu     sync.Mutex
-	msgs   []received
-	closed bool
-	cond   *sync.Cond
+	tcp     *net.TCPConn
+	ws      *websocket.Conn
+	tag     string
+	mu      sync.Mutex
+	msgs    []received
+	closed  bool
+	cond    *sync.Cond
 	reading bool
 }
 
-var tagN int64
+var tagN, dialN int64
 
 func (s *l2server) dial(params string, rcvbuf int) (*client, error) {
 	u, _ := url.Parse(s.ts.URL)
 	addr, _ := net.ResolveTCPAddr("tcp", u.Host)
-	tcp, err := net.DialTCP("tcp", nil, addr)
+	// many short connections: spread the source addresses over 127.0.0.0/8 so that TIME_WAIT does not exhaust the ports
+	n := atomic.AddInt64(&dialN, 1)
+	src := &net.TCPAddr{IP: net.IPv4(127, 0, byte(1+(n/250)%250), byte(2+n%250))}
+	tcp, err := net.DialTCP("tcp", src, addr)
+	if err != nil {
+		tcp, err = net.DialTCP("tcp", nil, addr)
+	}
 	if err != nil {
 		return nil, err
 	}
@@ -478,35 +484,35 @@ func frame(opcode byte, payload []byte) []byte {
 // ---------------------------------------------------------------- outcomes
 
 type Outcome struct {
-	Script   string `json:"script"`
-	Param    int    `json:"param"`
-	Rep      int    `json:"rep"`
-	Joined   bool   `json:"joined"`
+	Script string `json:"script"`
+	Param  int    `json:"param"`
+	Rep    int    `json:"rep"`
+	Joined bool   `json:"joined"`
 	// observables
-	Returned        bool  `json:"returned"`          // websocket.Handle returned within the deadline
-	ReturnedByPanic bool  `json:"returned_by_panic"` // ... by a panic (net/http recovered it)
-	ReturnMs        int64 `json:"return_ms"`
-	DisconnectCalls int   `json:"disconnect_calls"`
-	GaugeBack       bool  `json:"gauge_back"`
-	GoroutinesBack  bool  `json:"goroutines_back"`
-	LeaveSeen       int   `json:"leave_seen"`       // leave broadcasts for the offender seen by the witness of the same session
-	DeletesOK       bool  `json:"deletes_ok"`       // exactly the non persistent entities of the offender were deleted, once each
-	Ghost           bool  `json:"ghost"`            // the offender is still listed as a member afterwards
-	SameSessionOK   bool  `json:"same_session_ok"`  // witness of the same session gets an answer afterwards
-	OtherSessionOK  bool  `json:"other_session_ok"` // witness of another session gets an answer afterwards
-	EndedEarly      bool  `json:"ended_early"`      // (idle scripts) the connection was ended while it was still sending
+	Returned        bool   `json:"returned"`          // websocket.Handle returned within the deadline
+	ReturnedByPanic bool   `json:"returned_by_panic"` // ... by a panic (net/http recovered it)
+	ReturnMs        int64  `json:"return_ms"`
+	DisconnectCalls int    `json:"disconnect_calls"`
+	GaugeBack       bool   `json:"gauge_back"`
+	GoroutinesBack  bool   `json:"goroutines_back"`
+	LeaveSeen       int    `json:"leave_seen"`       // leave broadcasts for the offender seen by the witness of the same session
+	DeletesOK       bool   `json:"deletes_ok"`       // exactly the non persistent entities of the offender were deleted, once each
+	Ghost           bool   `json:"ghost"`            // the offender is still listed as a member afterwards
+	SameSessionOK   bool   `json:"same_session_ok"`  // witness of the same session gets an answer afterwards
+	OtherSessionOK  bool   `json:"other_session_ok"` // witness of another session gets an answer afterwards
+	EndedEarly      bool   `json:"ended_early"`      // (idle scripts) the connection was ended while it was still sending
 	Note            string `json:"note,omitempty"`
-	Class           string `json:"class"` // projection compared with Conn.v: clean | wedged | ghost | double | crash
-	Model           string `json:"model"` // the client behaviour of this script in the alphabet of Conn.v (tokens of oracle/conn/driver.ml)
-	WantKept        bool  `json:"want_kept"` // the script expects the connection to stay open
+	Class           string `json:"class"`     // projection compared with Conn.v: clean | wedged | ghost | double | crash
+	Model           string `json:"model"`     // the client behaviour of this script in the alphabet of Conn.v (tokens of oracle/conn/driver.ml)
+	WantKept        bool   `json:"want_kept"` // the script expects the connection to stay open
 }
 
 type l2env struct {
-	s      *l2server
-	w1     *client // witness, member of session S1
-	w2     *client // witness, member of another session
-	s1     string
-	quick  bool
+	s        *l2server
+	w1       *client // witness, member of session S1
+	w2       *client // witness, member of another session
+	s1       string
+	quick    bool
 	deadline time.Duration
 }
 
@@ -530,14 +536,14 @@ func (e *l2env) setupWitnesses() error {
 }
 
 type offender struct {
-	c        *client
-	pid      uint32
-	ents     []uint32 // non persistent
-	pents    []uint32 // persistent
-	g0       float64
-	n0       int
-	w1mark   int
-	joined   bool
+	c      *client
+	pid    uint32
+	ents   []uint32 // non persistent
+	pents  []uint32 // persistent
+	g0     float64
+	n0     int
+	w1mark int
+	joined bool
 }
 
 // begin opens the offender connection; joined: member of S1 with one non persistent and one persistent entity
@@ -586,6 +592,14 @@ func (e *l2env) observe(o *offender, out *Outcome) {
 			out.Returned = true
 			out.ReturnedByPanic = !rec.normal
 		case <-time.After(e.deadline):
+			// a wedge is permanent: before calling it one, wait as long again (a loaded machine is slow, not stuck)
+			select {
+			case <-rec.returned:
+				out.Returned = true
+				out.ReturnedByPanic = !rec.normal
+				out.Note += "slow return; "
+			case <-time.After(e.deadline):
+			}
 		}
 		out.DisconnectCalls = int(atomic.LoadInt32(&rec.discCalls))
 	} else {
@@ -998,9 +1012,11 @@ func (e *l2env) scriptStall(variant int) Outcome {
 func (e *l2env) scriptIdle(variant int) Outcome {
 	names := []string{"idle_silent", "idle_pinging", "idle_pose_only_unjoined", "idle_silent_joined", "idle_pose_only_joined"}
 	out := Outcome{Script: names[variant], Param: variant}
-	rep24 := func(t string) string { return strings.TrimSpace(strings.Repeat(t+" T*37 ", 24)) }
-	out.Model = []string{"T*300", rep24("V") + " T*300", rep24("D") + " T*300", "J V V T*300", "J V V " + rep24("D") + " T*300"}[variant]
-	idle := 400 * time.Millisecond
+	// the sync clock (sync=100ms here) ticks while the script runs: token Y
+	rep24 := func(t string) string { return strings.TrimSpace(strings.Repeat(t+" T*37 Y ", 24)) }
+	silence := "T*100 Y T*100 Y T*100"
+	out.Model = []string{silence, rep24("V") + " " + silence, rep24("D") + " " + silence, "J V V " + silence, "J V V " + rep24("D") + " " + silence}[variant]
+	idle := 800 * time.Millisecond
 	joined := variant == 3 || variant == 4
 	o, err := e.begin(joined, "idle="+idle.String()+"&sync=100ms", 0)
 	if err != nil {
@@ -1236,13 +1252,13 @@ func l2Child(args []string) int {
 }
 
 type l2Report struct {
-	Outcomes   []Outcome          `json:"outcomes"` // bursts: only the non clean ones and a few samples
+	Outcomes   []Outcome                 `json:"outcomes"`     // bursts: only the non clean ones and a few samples
 	Counts     map[string]map[string]int `json:"class_counts"` // script(param) -> class -> count
-	Violations []Outcome          `json:"violations"`
-	Crashes    []map[string]string `json:"crashes"`
-	Runs       int                `json:"runs"`
-	WallS      float64            `json:"wall_s"`
-	Distinct   []string           `json:"distinct_cases"` // script|model tokens|class, for the comparison with Conn.v
+	Violations []Outcome                 `json:"violations"`
+	Crashes    []map[string]string       `json:"crashes"`
+	Runs       int                       `json:"runs"`
+	WallS      float64                   `json:"wall_s"`
+	Distinct   []string                  `json:"distinct_cases"` // script|model tokens|class, for the comparison with Conn.v
 }
 
 func l2Parent(args []string) int {
@@ -1253,6 +1269,7 @@ func l2Parent(args []string) int {
 	only := fs.String("only", "", "only scripts whose name starts with this")
 	deadline := fs.Duration("deadline", 2*time.Second, "")
 	maxViol := fs.Int("maxviol", 25, "stop a repeated script after this many violations")
+	maxTotal := fs.Int("maxtotal", 0, "stop the whole run after this many violations (0 = never)")
 	fs.Parse(args)
 	t0 := time.Now()
 	plan := planFor(*tier, *burstReps)
@@ -1326,7 +1343,7 @@ func l2Parent(args []string) int {
 				}
 				curScript = ""
 				// a repeated script that keeps failing has made its point: move on to the next script
-				if violPerScript[name] >= *maxViol {
+				if violPerScript[name] >= *maxViol || (*maxTotal > 0 && len(rep.Violations) >= *maxTotal) {
 					killedFor = name
 					cmd.Process.Kill()
 				}
@@ -1351,6 +1368,9 @@ func l2Parent(args []string) int {
 					idx, from = i+1, 0
 					break
 				}
+			}
+			if *maxTotal > 0 && len(rep.Violations) >= *maxTotal {
+				break
 			}
 			continue
 		}
